@@ -97,7 +97,7 @@ func NewPKI(t *kernel.Tape, epoch time.Time, maxRoots, maxInter int) *PKI {
 			p.serial++
 			path.Pre = oracle.Build(oracle.CertSpec{CN: fmt.Sprintf("PreIssuer %d", r), Serial: p.serial, Key: p.key(kind), Issuer: path.Chain[0],
 				NotBefore: epoch.AddDate(-1, 0, 0), NotAfter: epoch.AddDate(5, 0, 0), IsCA: true,
-				Exts: permute(t, []oracle.ExtKind{"bc", "ku", "ski", "aki", "ekuct"})})
+				Exts: permute(t, []oracle.ExtKind{"bc", "ku", "ski", "aki", []oracle.ExtKind{"ekuct", "ekuct", "ekuct+"}[t.Intn(3)]})})
 		}
 		if path.Twin == nil && r > 0 && p.Paths[0].Twin == nil && t.Chance(1, 2) {
 			// this CA's root is also cross-signed by the first root: same subject and key, another issuer
